@@ -88,9 +88,17 @@ def __vint__(x):
 def __vfloor__(x):
     if _is_sym_int(x):
         return x
-    if _is_sym(x):
+    if _is_sym(x) or hasattr(x, "tf"):
         return x.__floor__()
     return math.floor(x)
+
+
+def __vceil__(x):
+    if _is_sym_int(x):
+        return x
+    if _is_sym(x) or hasattr(type(x), "tf") or hasattr(x, "tf"):
+        return x.__ceil__()
+    return math.ceil(x)
 
 
 class VSet(set):
@@ -234,13 +242,13 @@ class Cut(ast.NodeTransformer):
         elif (
             CUT_FLOOR
             and isinstance(f, ast.Attribute)
-            and f.attr == "floor"
+            and f.attr in ("floor", "ceil")
             and isinstance(f.value, ast.Name)
             and f.value.id == "math"
             and len(node.args) == 1
         ):
             self._log(node, "floor")
-            node.func = ast.copy_location(ast.Name("__vfloor__", ast.Load()), f)
+            node.func = ast.copy_location(ast.Name("__v%s__" % f.attr, ast.Load()), f)
         elif (
             VSETS
             and isinstance(f, ast.Name)
@@ -324,6 +332,7 @@ class Finder(importlib.abc.MetaPathFinder, importlib.abc.Loader):
         d["__vstr__"] = __vstr__
         d["__vint__"] = __vint__
         d["__vfloor__"] = __vfloor__
+        d["__vceil__"] = __vceil__
         d["__VSet__"] = VSet
         exec(compile(tree, fn, "exec"), d)
 
